@@ -82,6 +82,22 @@ func orderHash(st *store.Store) string {
 // withWidthNoLock runs f; the link width is set by the caller for all goroutines at once.
 func withWidthNoLock(f func()) { f() }
 
+// lazyDir is a caller-made quick-builder Node whose directory is built when it is first asked about.
+type lazyDir struct {
+	b     *quickbuilder.Builder
+	make  func() map[string]quickbuilder.Node
+	built quickbuilder.Node
+}
+
+func (l *lazyDir) node() quickbuilder.Node {
+	if l.built == nil {
+		l.built = l.b.NewMapDirectory(l.make())
+	}
+	return l.built
+}
+func (l *lazyDir) Size() (int64, error) { return l.node().Size() }
+func (l *lazyDir) Link() ipld.Link      { return l.node().Link() }
+
 func TestC10(t *testing.T) {
 	r := mon.Start(t, "C10")
 	defer r.Close()
@@ -387,6 +403,46 @@ func TestC10(t *testing.T) {
 				ls := st.LinkSystem(false)
 				outs := make([]buildResult, 3)
 				var wg sync.WaitGroup
+				var omu sync.Mutex
+				var omsgs []string
+				if d.Builder == "sharded" {
+					// ... while two more goroutines build the same entries at ANOTHER fanout (into a store of
+					// their own): builds of different widths share nothing
+					otherF := 16
+					if d.Fanout == 16 {
+						otherF = 512
+					}
+					h := d.Hasher
+					if h == 0 {
+						h = multihash.MURMUR3X64_64
+					}
+					ol, osz, oerr := builder.BuildUnixFSShardedDirectory(otherF, h, entries, base.Clone().LinkSystem(false))
+					for g := 0; g < 2; g++ {
+						wg.Add(1)
+						go func() {
+							defer wg.Done()
+							defer func() {
+								if p := recover(); p != nil {
+									omu.Lock()
+									omsgs = append(omsgs, fmt.Sprintf("a fanout-%d build running next to fanout-%d builds panicked: %v", otherF, d.Fanout, p))
+									omu.Unlock()
+								}
+							}()
+							ost := base.Clone()
+							ost.OnCommit = func(*store.Store, cid.Cid, []byte) { runtime.Gosched() }
+							for rep := 0; rep < 3; rep++ {
+								l, sz, err := builder.BuildUnixFSShardedDirectory(otherF, h, entries, ost.LinkSystem(false))
+								if (err == nil) != (oerr == nil) || (err == nil && (l.String() != ol.String() || sz != osz)) {
+									omu.Lock()
+									omsgs = append(omsgs, fmt.Sprintf("%d entries built at fanout %d while other goroutines build them at fanout %d: (%v, %d, %v), alone (%v, %d, %v)", len(names), otherF, d.Fanout, l, sz, err, ol, osz, oerr))
+									omu.Unlock()
+									return
+								}
+							}
+						}()
+					}
+					c.Count("concurrent_builds_of_mixed_fanouts", 1)
+				}
 				for g := 0; g < 3; g++ {
 					wg.Add(1)
 					go func(g int) {
@@ -415,6 +471,9 @@ func TestC10(t *testing.T) {
 					}(g)
 				}
 				wg.Wait()
+				for _, m := range omsgs {
+					c.Violation("C10|dir|concurrent|other-fanout", "%s", m)
+				}
 				for g, o := range outs {
 					c.Count("builds_compared", 1)
 					if o.key() != b0.key() {
@@ -595,6 +654,70 @@ func TestC10(t *testing.T) {
 			}
 		}
 		c.Sig("quick-node-reuse", true)
+	})
+	// a quick-builder session in which one entry is a caller-made Node that builds its sub-directory only
+	// when asked for its size or link - from inside the outer NewMapDirectory call, on the same Builder
+	r.Case("quick-lazy-subdirectory", map[string]any{"repeats": 12}, func(c *mon.Case) {
+		rr := c.Rand()
+		contents := map[string][]byte{}
+		for _, n := range []string{"a", "b", "m", "z", "sub/x", "sub/y", "sub/zz", "warm/1", "warm/2", "warm/3", "warm/4", "warm/5"} {
+			contents[n] = gen.Content(rr, "rand", 10+rr.Intn(200))
+		}
+		// the tree built eagerly, bottom-up, through the plain builders
+		var want buildResult
+		{
+			st := store.New()
+			ls := st.LinkSystem(false)
+			mk := func(names ...string) []dagpb.PBLink {
+				var es []dagpb.PBLink
+				for _, n := range names {
+					l, sz, err := builder.BuildUnixFSFile(bytes.NewReader(contents[n]), "", ls)
+					if err != nil {
+						c.Harness("file: %v", err)
+						return nil
+					}
+					e, _ := builder.BuildUnixFSDirectoryEntry(n[strings.LastIndex(n, "/")+1:], int64(sz), l)
+					es = append(es, e)
+				}
+				return es
+			}
+			sl, ssz, err := builder.BuildUnixFSDirectory(mk("sub/x", "sub/y", "sub/zz"), ls)
+			if err != nil {
+				c.Harness("sub: %v", err)
+				return
+			}
+			se, _ := builder.BuildUnixFSDirectoryEntry("sub", int64(ssz), sl)
+			l, sz, err := builder.BuildUnixFSDirectory(append(mk("a", "b", "m", "z"), se), ls)
+			if err != nil {
+				c.Harness("outer: %v", err)
+				return
+			}
+			want = buildResult{root: linkCid(l), size: sz}
+		}
+		for rep := 0; rep < 12; rep++ {
+			st := store.New()
+			var got buildResult
+			c.Guard("quick session with a lazy sub-directory", func() {
+				quickbuilder.Store(st.LinkSystem(false), func(b *quickbuilder.Builder) error {
+					// an earlier directory of the same session
+					b.NewMapDirectory(map[string]quickbuilder.Node{"1": b.NewBytesFile(contents["warm/1"]), "2": b.NewBytesFile(contents["warm/2"]), "3": b.NewBytesFile(contents["warm/3"]), "4": b.NewBytesFile(contents["warm/4"]), "5": b.NewBytesFile(contents["warm/5"])})
+					lazy := &lazyDir{b: b, make: func() map[string]quickbuilder.Node {
+						return map[string]quickbuilder.Node{"x": b.NewBytesFile(contents["sub/x"]), "y": b.NewBytesFile(contents["sub/y"]), "zz": b.NewBytesFile(contents["sub/zz"])}
+					}}
+					d := b.NewMapDirectory(map[string]quickbuilder.Node{"a": b.NewBytesFile(contents["a"]), "b": b.NewBytesFile(contents["b"]), "m": b.NewBytesFile(contents["m"]), "z": b.NewBytesFile(contents["z"]), "sub": lazy})
+					sz, _ := d.Size()
+					got = buildResult{root: linkCid(d.Link()), size: uint64(sz)}
+					return nil
+				})
+			})
+			c.Count("builds_compared", 1)
+			c.Count("quick_sessions_with_lazy_nodes", 1)
+			if got.key() != want.key() {
+				c.Violation("C10|dir|quick-lazy-node", "a quick-builder directory one of whose entries builds its sub-directory on demand (inside the outer NewMapDirectory call) is (%s, %d) in repeat %d; the same tree built bottom-up is (%s, %d)", got.root, got.size, rep, want.root, want.size)
+				break
+			}
+		}
+		c.Sig("quick-lazy-subdirectory", true)
 	})
 	// an on-disk tree in which some files are further names of one inode (hard links), and the tree in
 	// which the same names hold separate copies: the logical input - names and bytes - is the same
